@@ -46,6 +46,17 @@ def programs(ctx):
                     p.bin(op, 1, 4, 5)  # quantity op unit
                     p.bin(op, 3, 2, 5)  # unit op quantity
                     p.bin(op, 3, 4, 5)  # unit op unit
+        # zero amounts multiply and divide like any other (a plain 0 when the dimensions cancel)
+        for v in allunits:
+            if units[v]['t'] == 'T' or units[u]['t'] == 'T':
+                continue
+            p.make(1, units[u]['t'], F(0), u, 'dec' if len(v) % 2 else 'frac')
+            p.make(2, units[v]['t'], F(3, 2) if not units[v]['quantum'] else units[v]['quantum'] * 4, v)
+            p.unit(4, v)
+            p.bin('Div', 1, 4, 5)
+            p.bin('Div', 1, 2, 5)
+            p.bin('Mul', 1, 4, 5)
+            p.bin('Mul', 2, 1, 5)
         progs.append(p.d())
     # powers and numbers
     for u in allunits:
